@@ -435,6 +435,16 @@ func verifC12Sequence() {
 				dropOwners(r)
 			}
 		}
+		// every connection the reference holds live is the one the mux has on
+		// record for its ufrag (nothing but its own removal, its last handle's
+		// Close or the mux's Close unregisters it)
+		if !muxClosed {
+			for _, r := range conns {
+				if r.live {
+					verifAssertKnown(m.connsIPv4[r.ufrag] == r.c, "a-live-connection-stays-registered-for-its-ufrag", "C12-stale-close-unregisters-successor", true)
+				}
+			}
+		}
 		// Inv_mux: address map and per-connection address lists agree, keys canonical
 		for k, v := range m.addressMap {
 			verifAssert(k == netip.AddrPortFrom(k.Addr().Unmap(), k.Port()), "address-map-keys-canonical")
